@@ -16,6 +16,15 @@ from .report import VERIF, Ctx, finish
 PROPS = [f"C{i:02d}" for i in range(1, 21)]
 
 
+def anchor_files(prop: str):
+    import json
+    for line in open(os.path.join(VERIF, "properties.jsonl"), encoding="utf-8"):
+        p = json.loads(line)
+        if p["id"] == prop:
+            return list(p["anchors"]["files"])
+    return []
+
+
 def run_property(prop: str, root: str, tier: str, evidence_dir, seed: int, overlay=None, quiet=False) -> int:
     t0 = time.time()
     try:
@@ -27,6 +36,9 @@ def run_property(prop: str, root: str, tier: str, evidence_dir, seed: int, overl
         index = Index(root, overlay)
         ctx = Ctx(prop, index, tier)
         explanation, assumptions = mod.run(ctx)
+        # rules common to all properties (state shared between calls), on the property's anchor files
+        from rules.common import check_shared_state
+        check_shared_state(ctx, anchor_files(prop))
         if tier == "thorough" and hasattr(mod, "thorough"):
             mod.thorough(ctx)
         return finish(ctx, t0, evidence_dir, seed, explanation, assumptions, quiet=quiet)
